@@ -41,8 +41,12 @@ class FnModel:
         self.lambda_param = {}   # did -> (lambda node, index)
         self.loop_vars = {}      # did -> ForStmt node
         self.assigned = {}       # did -> count of plain assignments
+        self.range_vars = {}     # did -> range expression of the range-for that declares it
+        incremented = []
         for x in walk(self.body):
             k = x.get("k")
+            if k == "CXXForRangeStmt" and len(x.get("c", [])) >= 2 and x["c"][0] is not None and x["c"][0].get("k") == "VarDecl" and x["c"][1] is not None:
+                self.range_vars[x["c"][0]["did"]] = x["c"][1]
             if k in ("VarDecl", "ParmVarDecl"):
                 self.decls[x["did"]] = x
             if k == "LambdaExpr":
@@ -58,6 +62,15 @@ class FnModel:
                 lhs = strip(kids(x)[0])
                 if lhs.get("k") == "DeclRefExpr":
                     self.assigned[lhs["did"]] = self.assigned.get(lhs["did"], 0) + 1
+            if k == "UnaryOperator" and x.get("op") in ("++", "--"):
+                # ++ / -- of an integer counter is an assignment (iterators keep their `it(X)` origin)
+                lhs = strip(kids(x)[0])
+                if lhs.get("k") == "DeclRefExpr" and re.match(r"^(const )?(unsigned )?(long|int|long int|long long|short|size_t|std::size_t|std::ptrdiff_t|ptrdiff_t)$", lhs.get("t", "").strip()):
+                    incremented.append(lhs["did"])
+
+        for did in incremented:
+            if did not in self.loop_vars:
+                self.assigned[did] = self.assigned.get(did, 0) + 1
 
     # ------------------------------------------------------------------ origins
     def origin(self, n, depth=0):
@@ -83,6 +96,8 @@ class FnModel:
             did = n.get("did")
             if did in self.loop_vars:
                 return "L" if self.is_level_loop(self.loop_vars[did]) else "loopvar"   # (sym() distinguishes loop variables by declaration)
+            if did in self.range_vars:
+                return "each(" + self.origin(self.range_vars[did], depth + 1) + ")"
             if did in self.lambda_param:
                 lam, idx = self.lambda_param[did]
                 return self.lambda_arg_origin(lam, idx, depth)
